@@ -58,6 +58,10 @@ def witnesses():
         Nd("Seq", 0, [Nd("Par", 0, [L("succ", 1), L("succ", 0)]), L("block", 1)]),
         Nd("Seq", 2, [Nd("IfElse", 0, [L("succ", 0), L("fail", 1), None]), L("succ", 0)]),
         Nd("Seq", 0, []),
+        Nd("Comp", 0, [L("succ", 0)]),                                    # last-child result held while paused
+        Nd("IfElse", 0, [L("succ", 0), L("fail", 0), None]),
+        Nd("Loop", 2, [L("succ", 1)]),
+        Nd("Seq", 0, [L("succ", 1, k="Sleep"), L("succ", 0, k="Func")]),
     ]
 
 
